@@ -296,18 +296,23 @@ NUM = re.compile(r"^[+-]?(\d+\.?\d*|\.\d+)([eE][+-]?\d+)?$|^[+-]?(inf|nan)$")
 
 
 def tok_tol(tok):
-    if "." in tok and "e" not in tok.lower():
-        d = len(tok.split(".")[1])
-        return 0.5000001 * 10 ** (-d)
-    return 1e-9
+    """half a unit in the last printed digit (also for exponent notation)"""
+    t = tok.lower().lstrip("+-")
+    mant, _, ex = t.partition("e")
+    d = len(mant.split(".")[1]) if "." in mant else 0
+    try:
+        e10 = int(ex) if ex else 0
+    except ValueError:
+        e10 = 0
+    return 0.5000001 * 10 ** (e10 - d) if (d or ex) else 1e-9
 
 
 def parse_rows(text):
     """complete lines -> list of rows; a row is a list of (token, value|None)."""
     rows = []
     for line in text.split("\n"):
-        toks = line.split()
-        if not toks:
+        toks = [t for t in re.split(r"[,;\s]+", line.strip()) if t]
+        if not toks or toks[0].startswith("#"):
             continue
         row = []
         for t in toks:
@@ -336,6 +341,7 @@ class WLSim(object):
         self.step = None             # info on the step whose u was just drawn
         self.kappa_memo = {}
         self.hook_seen = False
+        self.hook_capable = bool(getattr(wl, "_VERIF_ENABLED", False)) and hasattr(wl, "_VERIF_HOOK") and not plan.get("no_hook")
         self.use_hook = False
         self.in_step = False
         self.inflight_rows = 0
@@ -378,6 +384,9 @@ class WLSim(object):
     # more than one move-selection number.  A WL draw while a proposal is undecided is the acceptance draw;
     # any other WL draw is a move-selection draw.
     def on_move(self, kind, parent, child):
+        if self.prop is not None and not self.started and "proposal" not in self.pending_hook and self.hook_capable:
+            self.prop = None            # e.g. a shuffle used to pick the starting arrangement: not a proposal of the walk
+            self.ctx.probe("move_before_the_walk_ignored")
         if self.prop is not None:
             self.resolve_without_draw()
         self.prop = {"kind": kind, "p": parent, "q": child}
@@ -490,6 +499,8 @@ class WLSim(object):
             if not inr:
                 u, cls = 0.0, "outside_u0"
                 self.ctx.probe("proposal_outside_range_with_u_zero")
+            elif P < 1e-300:
+                u, cls = r.random(), "uniform_tinyP"
             elif P < 1.0:
                 c = r.randrange(5)
                 if c == 0 and P * (1 - 1e-6) < P:
@@ -502,8 +513,10 @@ class WLSim(object):
                     u, cls = P / 2, "half_P"
                 elif c == 3:
                     u, cls = (1 + P) / 2, "above_P"
-                else:
+                elif P >= 1e-300:
                     u, cls = 0.0, "zero"
+                else:
+                    u, cls = r.random(), "uniform_tinyP"     # exp(d) underflows: u = 0 would separate exp-space from log-space implementations of the same rule
             else:
                 u, cls = r.choice(((0.0, "zero_P1"), (ONE_MINUS, "max_P1"), (0.5, "half_P1")))
         else:
@@ -855,15 +868,28 @@ def _execute(plan, ctx, fs, wl, seqmod, permmod, Sequence, SequenceException, cl
     wl.rng = RngModule(lambda: TapeRandom("wl", ctx, WLDriver(), 10 ** 9))
     seqmod.rng = RngModule(move_factory)
 
+    from localcider.sequenceParameters import SequenceParameters as _SP
+
+    def seq_of(o):
+        try:
+            return _SP(SeqObj=o).get_sequence()       # through the API, not through attribute names
+        except Exception:
+            return str(o)
+
     # observation channel 2: class-level wrappers around the four moves
     def wrap(name):
         orig = getattr(Sequence, name)
 
         def w(self, *a, **k):
-            parent = self.seq
-            out = orig(self, *a, **k)
-            if cur["sim"] is not None:
-                cur["sim"].on_move(name, parent, out.seq)
+            if cur["sim"] is None or not cur.get("armed") or cur.get("depth"):
+                return orig(self, *a, **k)        # outside run(), or a move called by another move
+            cur["depth"] = 1
+            try:
+                parent = seq_of(self)
+                out = orig(self, *a, **k)
+            finally:
+                cur["depth"] = 0
+            cur["sim"].on_move(name, parent, seq_of(out))
             return out
         setattr(Sequence, name, w)
     for name in ("full_shuffle", "swapRandChargeRes", "permute_block_swap", "permute_cluster_charges"):
@@ -939,7 +965,11 @@ def _execute(plan, ctx, fs, wl, seqmod, permmod, Sequence, SequenceException, cl
                         ctx.probe("warm_sequence_object")
                 machine = wl.WangLandauMachine(seq_in, OUTDIR, set(plan.get("frozen", [])), **kw)
             machine_box[0] = machine
-            ret = machine.run()
+            cur["armed"] = True
+            try:
+                ret = machine.run()
+            finally:
+                cur["armed"] = False
         except StepCap:
             outcome = "step_cap"
         except SimCrash:
@@ -950,6 +980,13 @@ def _execute(plan, ctx, fs, wl, seqmod, permmod, Sequence, SequenceException, cl
             outcome, err = "oserror", e
         except SequenceException as e:
             outcome, err = "move_exception", e
+        except Exception as e:
+            if fs.errors_fired > fired0:
+                outcome, err = "oserror", e          # an I/O error re-wrapped by the library is still a failed run
+            elif run_no == 1 and not sim.started:
+                outcome, err = "refused", e          # e.g. a machine that refuses to run twice or to overwrite a dirty directory
+            else:
+                raise
         fired = fs.errors_fired - fired0
         crashed = fs.crashed
         ctx.log.emit("run_end", run=run_no, outcome=outcome, steps=sim.model.steps, fired=fired, err=type(err).__name__ if err else None)
@@ -964,13 +1001,25 @@ def _execute(plan, ctx, fs, wl, seqmod, permmod, Sequence, SequenceException, cl
             ctx.nontrivial = True
         if len(sim.bins_visited) >= 3:
             ctx.probe("multi_bin_visit")
+        if outcome == "returned" and run_no == 1 and plan.get("restart") == "same_machine" and not sim.started and not sim.model.done:
+            ctx.probe("second_run_on_same_machine_was_a_no_op")      # whether a finished machine runs again is not said
+            cur["sim"] = None
+            fs.restart()
+            continue
         if outcome == "returned":
             if sim.model.steps == 0 and not sim.started:
                 ctx.probe("run_with_no_steps")
             sim.finish_normal(ret)
             ctx.probe("converged")
             ctx.count("runs_converged")
+        elif outcome == "refused":
+            ctx.probe("second_run_refused")
         elif outcome == "oserror":
+            if not fired and run_no == 1 and not sim.started:
+                ctx.probe("second_run_refused")
+                cur["sim"] = None
+                fs.restart()
+                continue
             if not fired:
                 raise Violation("run_raised", "run_raised", "run %d raised %r although no I/O fault was injected" % (run_no, err))
             ctx.probe("oserror_propagated")
